@@ -55,6 +55,10 @@ def configs(tier):
   many.append((q, dict(prods=[1, 2, 2], cap=1, cons=['get'], fail=[0, 0])))
   many.append((q, dict(prods=[1, 2, 2], cap=1, cons=[['batch', 0]],
                        fail=[0, 0])))
+  # no consumer at all: the other producers must still stop and return (the
+  # failing source fails at position 0, so it never needs queue space itself)
+  many.append((q, dict(prods=[1, 2, 2], cap=1, cons=[], fail=[0, 0])))
+  many.append((q, dict(prods=[1, 2, 2, 2], cap=1, cons=[], fail=[0, 0])))
   many.append((q, dict(prods=[2, 2], cap=1, cons=['get'], stop='plain')))
   many.append((q, dict(prods=[2, 2], cap=1, cons=['get'], stop='exc')))
   many.append((q, dict(prods=[2, 2], cap=1, cons=['get', 'get'], fail=[0, 1])))
